@@ -1,4 +1,7 @@
 From Coq Require Import NArith List.
 From KT Require Import Extract.Dispatch.
 Require Import ExtrOcamlBasic.
+(* Coq's List.rev is the quadratic `rev t ++ [x]`; lines of tens of kilobytes (long records, block-aligned files)
+   make the extracted reader and tokenizer unusable with it.  The only extraction directive of our own: *)
+Extract Constant rev => "List.rev".
 Extraction "model.ml" dispatch.
